@@ -64,6 +64,7 @@ void evutil_secure_rng_get_bytes(void *buf, size_t n)
 	}
 }
 
+#define VPD_CLONE_COPY 1
 #include "dns_typed_alloc_pre.h"
 #include "evdns.c"
 #include "dns_typed_alloc_post.h"
@@ -324,6 +325,9 @@ void harness_timeout_tcp(void)
 	req = j == 0 ? c34_h[0]->current_req : c34_h[1]->current_req;
 	__CPROVER_assume(req != NULL && vpe_event_is_pending(&req->timeout_event));
 	(void)event_del(&req->timeout_event);
+#if C34_STAGGER
+	VP_WITNESS("C34 tcp timeout: staggered state built, second timer fires");
+#endif
 	evdns_request_timeout_callback(-1, EV_TIMEOUT, req);
 	VP_ASSERT(c34_rec[0].calls == 0 && c34_rec[1].calls == 0, "C34: timeout callback is deferred");
 	c34_run_deferred();
@@ -335,7 +339,9 @@ void harness_timeout_tcp(void)
 	VP_ASSERT(c34_h[0]->current_req->tx_count == 2 && c34_h[1]->current_req->tx_count == 2, "C34: both TCP requests of the nameserver are retransmitted");
 #endif
 	c34_check_base("tcp timeout");
+#if !C34_STAGGER
 	VP_WITNESS("C34 tcp timeout: connection torn down, requests of the nameserver walked");
+#endif
 	c34_cleanup();
 	VP_ASSERT(c34_rec[0].calls <= 1 && c34_rec[1].calls <= 1, "C34: more than one callback for a request");
 }
@@ -465,7 +471,9 @@ void harness_txid(void)
 	if (n >= 1) VP_ASSERT(r->trans_id != id, "C34: transaction_id_pick returned the id of an inflight request");
 	if (n >= 2) VP_ASSERT(r->next->trans_id != id, "C34: transaction_id_pick returned the id of an inflight request (second)");
 	VP_ASSERT(request_find_from_trans_id(c34_base, id) == NULL, "C34: picked id is found inflight");
+#if C34_NREQ == 2
 	if (n == 2 && c34_id_draws >= 2) VP_WITNESS("C34 txid: fresh id after a rejected draw, two requests inflight");
+#endif
 	if (n >= 1) VP_WITNESS("C34 txid: id picked with requests inflight");
 	c34_rng_symbolic = 0;
 	c34_cleanup();
